@@ -457,7 +457,7 @@ theorem MirrorInv.step (o : List Addr) (s s' : Sys) (m : Msg) (rest subs : List 
       · have : a = stseiA := by have := sb x hin; rw [hxe] at this; exact this
         rw [← own]; exact internal_not_owner w' a (by rw [this]; simp [internal])
       · exact restSenders x hin a b' c d' hxe
-  | reward s1 sender funds rm heq h1 hx' h b t d g =>
+  | reward s1 sender funds rm heq h1 _ _ hx' h b t d g =>
     have w1 : Wired s1 := w.of_same h1
     rw [w1.tokenOf] at hx'
     have cfg : s'.reward.owner = s.reward.owner ∧ s'.reward.newOwner = s.reward.newOwner := by
